@@ -28,7 +28,7 @@ func init() {
 			"constant half: goag.Generate(valid doc, raw bytes) then the value of constant SpecFile (go/types constant folding of spec_file.go) must equal the input bytes; " +
 			"served half (compiled driver): GET <base>/<spec name> with SpecFileHandler installed and a 418-answering middleware stack returns 200 and the exact bytes for every base-path form / --spec-handler-name, is not found when the handler is nil, and near-miss paths are never answered by it (also when a catch-all /{v} template matches the spec path); " +
 			"non-trivial = content with a backtick, quote, backslash or CR, or without LF; distinct by content hash",
-		Assume: []string{"contents are valid UTF-8 without NUL (DESIGN.md §11); the HTTP method on the spec route is unconstrained"},
+		Assume:    []string{"contents are valid UTF-8 without NUL (DESIGN.md §11); the HTTP method on the spec route is unconstrained"},
 		Main:      c13Main,
 		MinNonTrv: 500,
 	})
